@@ -25,6 +25,18 @@ CHECKS = {
     "C07": dict(engine="codec", cat="exploration", tech="generated-input runtime monitor with independent reference decoders/encoders",
                 text="Every header value of the boundary lists (all varint boundaries of seq and of every length field, megabyte sizes, scratch-buffer variants) plus seeded random values is round-tripped through the library and cross-checked in both directions against reference codecs written from the documented formats; the default (nil encoder) path is driven through a real Conn and a real ServeCodec loop; all 256 upgrade bytes through hook VerifUpgrade.",
                 note="trusted base: reference codecs in harness/wire; field contents are sampled, boundary lists are enumerated completely"),
+    "C08": dict(engine="hostile", cat="fault_enumeration", tech="crash sentinel: supervisor/worker processes, every input logged before delivery to a real ServeCodec loop / real Conn; enumerated truncations, corruptions and upgrade bytes; probes on the same and on another connection",
+                text="Per header encoder x I/O mode, for the server and for the client side: a corpus of valid frames, all 256 upgrade bytes x method kinds x body kinds, every truncation and every single-bit/boundary-value corruption of every corpus frame (thorough: all 255 other byte values for short frames), seeded random frames and multi-byte mutations, and bursts of queued requests followed at once by EOF/reset. The worker process must survive and keep serving well-formed probes; an input that kills it is pinpointed by replaying the last inputs one at a time and the enumeration continues behind it.",
+                note="inputs are delivered as frames through socket.Messages (the raw length-prefix parser belongs to hslam/socket); poll-mode servers are exercised by the real-network engines"),
+    "C13": dict(engine="pool", cat="exploration", tech="runtime monitor inside memnet's dial critical section (live client-side connections per address) + hook VerifPool snapshots every 250 virtual ms, under generated pool histories in virtual time",
+                text="400 (quick) / 12000 (thorough, plus a race build) generated pool histories - limits from {(0,0),(-1,5),(1,1),(2,5),(3,1),(4,2),(8,8),(2,2),(5,3)}, 1-32 callers x 1-3 addresses, all call forms, pings, streams, long handlers, CloseIdleConnections, server kill/restart, hook-H1 delays that let housekeeping ticks land between getConn and the use of the connection: at every dial the live connections to the address must be within the effective MaxConnsPerHost and at every snapshot idle <= effective MaxIdleConnsPerHost.",
+                note="hooks H1 (transport.gotConn) and H3 (VerifPool); virtual time makes the 1 s housekeeping tick free"),
+    "C14": dict(engine="pool", cat="fault_enumeration", tech="kill/restart scripts against a real Transport in virtual time; handler ledgers per address; failure counting against the pooled-connection count from hook VerifPool",
+                text="Class 'restart' (400 / 12000 histories): a sequential caller with call spacings from 10 ms to 6 s around KeepAlive/IdleConnTimeout, server killed at a PRNG-chosen call and restarted 1-4 calls later, then 2*max+2 further calls. Executions must appear only in ledgers of the requested address; calls while down must return ErrDial/ErrShutdown in zero virtual time; ErrShutdown failures after the kill must not exceed the connections pooled at the kill; no other error after the restart and the caller must succeed again. Plus the 'limits' histories for the address oracle.",
+                note="spacings, kill points and limits are sampled from fixed lists by the seed"),
+    "C15": dict(engine="pool", cat="exploration", tech="runtime monitor: wire tap locates the connection a request was written to, memnet records who closed it; live-connection counter at stated virtual instants",
+                text="Class 'busy' (400 / 12000 histories) and 'limits': long calls and idle open streams spanning many housekeeping ticks, CloseIdleConnections fired repeatedly, hook-H1 delays. A call or stream to a never-killed server whose request was written to a connection must not fail because the client side closed that connection; KeepAlive + IdleConnTimeout + 2 ticks after the last use no connection may be open; none after Transport.Close.",
+                note="liveness clauses restated as bounded progress in virtual time; a connection closed inside the H1 window before the request was written is outside the statement and only counted"),
     "C09": dict(engine="e2e", cat="exploration", tech="runtime monitor: unique (stream, direction, index) messages, sequence equality on both ends, blocked-reader detection at quiescence",
                 text="Profile 'streams' (400 / 6000 scenarios + mix): 1-16 streams per connection, handlers pushing 0/1/5 messages right after open, client writing or reading first, echo/sink/burst steps with sizes 22 B..100 KB, unary calls and pings alongside. Each end must read exactly the sequence the other wrote while the stream is open; a lost message shows as a reader blocked at quiescence.",
                 note="messages still queued when a stream is closed may be discarded by design; equality is required while open only"),
@@ -74,6 +86,8 @@ def main():
             {"name": "codec", "path": "harness/rt/codec.go", "serves_properties": ["C07"], "kind_free_text": "generated-input monitor with reference codecs (real time, no concurrency)"},
             {"name": "e2e", "path": "harness/scen/e2e.go", "serves_properties": ["C01", "C04", "C05", "C06", "C09", "C11", "C19"], "kind_free_text": "generated end-to-end scenarios on the real stack inside a synctest bubble over memnet, with call/handler/wire/retention monitors"},
             {"name": "sched", "path": "harness/vt/sched_test.go", "serves_properties": ["C02", "C19"], "kind_free_text": "scripted peer at the Messages level, enumerated boundary-event scripts, quiescence between events"},
+            {"name": "hostile", "path": "harness/rt/hostile.go", "serves_properties": ["C08"], "kind_free_text": "crash sentinel with supervisor/worker processes and enumerated hostile frames"},
+            {"name": "pool", "path": "harness/vt/pool_test.go", "serves_properties": ["C13", "C14", "C15"], "kind_free_text": "real Transport over memnet in virtual time with housekeeping, kills, hook-H1 delays"},
             {"name": "cut", "path": "harness/vt/cut_test.go", "serves_properties": ["C03", "C10"], "kind_free_text": "cut-point enumeration of a scripted conversation in virtual time"},
         ],
         "checks": checks,
